@@ -560,7 +560,7 @@ func TestC38(t *testing.T) {
 	kinds := map[string]int{}
 	// (json.Marshal of the AST re-compacts every nested MarshalJSON result, ~5 ms per program: quick counts are sized for that)
 	defer debug.SetGCPercent(debug.SetGCPercent(400))
-	N := evid.N(5_500, 60_000)
+	N := evid.N(5_500, 40_000)
 	report := func(class string, src []byte, notes []string, msg string) {
 		cls := msgClass(msg)
 		small := shrinkStructured(src, func(b []byte) bool {
